@@ -1851,6 +1851,10 @@ class Model:
             msg = f"Surrogate '{name}' not found in model"
             raise KeyError(msg)
 
+        # The stored surrogate may be the one that is updated in place below,
+        # so remember which ids it registered before touching it
+        old_outputs = list(self._surrogates[name].outputs)
+
         if surrogate is None:
             surrogate = self._surrogates[name]
 
@@ -1863,7 +1867,7 @@ class Model:
             surrogate.stoichiometries = stoichiometries
 
         # Update ids
-        for i in self._surrogates[name].outputs:
+        for i in old_outputs:
             self._remove_id(name=i)
         for i in surrogate.outputs:
             self._insert_id(name=i, ctx="surrogate")
